@@ -642,6 +642,8 @@ class Composer:
                             st["A"] = (tops, mid, mid, mid, crs)
                     continue
                 ev = self.ev.get(e)
+                if ev is not None and ev["kind"] == "unknown":
+                    raise Incomplete("%s: %s" % (v.name, ev["why"]))
                 if ev is None or ev["kind"] != "helper":
                     continue
                 new = {}
